@@ -1494,6 +1494,8 @@ class PySet:
 
     def add(self, x):
         if is_sym(x):
+            if any(is_sym(y) and z3.eq(x, y) for y in self.items):
+                return
             raise Unsupported("set of symbolic values")
         if x not in self.items:
             self.items.append(x)
